@@ -323,6 +323,11 @@ def syncml_shapes(T, rng):
         out.append((L, syncml_doc(T, L, "Add", b"text/x-vcard", [('s', b"A")], extra_in_data=(0, x)), "syncml-elt-in-cdata"))
         out.append((L, syncml_doc(T, L, "Add", b"text/x-vcard", [('s', b"A")], extra_in_data=(1, x)), "syncml-elt-in-cdata"))
         out.append((L, syncml_doc(T, L, "Replace", b"", [('s', b"A")], with_meta=False, extra_in_data=(1, x)), "syncml-elt-in-cdata"))
+        # an EMPTY element of a foreign code page immediately followed by a sibling from that page (namespace scope)
+        E1 = lambda n, c=None, p=None: Elem(('t', tagrow(T, L, n, p)), None, c)
+        for first in ("Format", "Mark", "Size"):
+            meta = E1("Meta", [E1(first, None, 1), E1("Type", [('s', b"t")], 1), E1("Anchor", [E1("Last", None, 1), E1("Next", [('s', b"1")], 1)], 1)], 0)
+            out.append((L, E1("SyncML", [E1("SyncBody", [E1("Status", [meta, E1("Cmd", [('s', b"x")], 0)], 0)], 0)], 0), "syncml-ns-scope"))
         # <Type> rewrite + embedded DevInf / DM tree documents
         dev = {2001: 2002, 2101: 2102, 2201: 2202}[lid]
         DL = langs[dev]
